@@ -1,5 +1,99 @@
-import SmtpV.Model.Server
+import SmtpV.Proofs.ServerInv
 import SmtpV.Spec.Monitors
-/-! # C10 (theorems follow) -/
+/-!
+# C10 — STARTTLS discards all plaintext state and input (server side)
+
+Client side (DialStartTLS / SendMail against misbehaving peers) is not yet covered by a theorem.
+-/
 namespace SmtpV.Props.C10
+open SmtpV SmtpV.Spec SmtpV.Server SmtpV.Reply
+
+/-- the handshake the scripted TLS layer will report succeeds -/
+def HsSucceeds (s : S) : Prop := s.be.hs = [] ∨ ∃ t, s.be.hs = true :: t
+
+/-- **C10_offer_iff.**  STARTTLS is accepted (220) only when TLS is configured and not already active:
+    otherwise the command changes nothing but the reply stream. -/
+theorem C10_refused_unless_available (s : S) (h : s.c.tls = true ∨ s.cfg.tlsAvail = false) :
+    (handleStartTLS s).c = s.c ∧ (handleStartTLS s).w = s.w := by
+  unfold handleStartTLS
+  by_cases ht : s.c.tls = true
+  · simp only [ht, if_true]; exact ⟨reply_c _ _ _ _, reply_w _ _ _ _⟩
+  · have ha : s.cfg.tlsAvail = false := by rcases h with h | h; exact absurd h ht; exact h
+    simp only [ht, ha, Bool.false_eq_true, if_false, Bool.not_false, if_true]
+    exact ⟨reply_c _ _ _ _, reply_w _ _ _ _⟩
+
+theorem tlsUpgrade_spec (s : S) :
+    (tlsUpgrade s).c = { s.c with tls := true, session := none, helo := [], didAuth := false, bdat := none,
+                                  bdatStatus := none, bytesReceived := 0, fromReceived := false, recipients := [] } ∧
+    (tlsUpgrade s).w = { (s.tlsW.getD {}) with limit := s.cfg.maxLine, cur := 0, tripped := false, buf := [], err := none } ∧
+    (tlsUpgrade s).tlsW = none := by
+  unfold tlsUpgrade
+  obtain ⟨rc, rw_, rt, _, _⟩ := resetConn_c (forgetGreeting (logoutSess (switchWire s)))
+  obtain ⟨lc, lw, lt, _, _⟩ := logoutSess_c (switchWire s)
+  have fc : (forgetGreeting (logoutSess (switchWire s))).c = { (logoutSess (switchWire s)).c with helo := [], didAuth := false } := rfl
+  have fw : (forgetGreeting (logoutSess (switchWire s))).w = (logoutSess (switchWire s)).w := rfl
+  have ft : (forgetGreeting (logoutSess (switchWire s))).tlsW = (logoutSess (switchWire s)).tlsW := rfl
+  have sc : (switchWire s).c = { s.c with tls := true } := rfl
+  refine ⟨?_, ?_, ?_⟩
+  · rw [rc, fc, lc, sc]
+  · rw [rw_, fw, lw]; rfl
+  · rw [rt, ft, lt]; rfl
+
+/-- the state `handleStartTLS` reaches when the handshake succeeds, spelled out -/
+theorem startTLS_success (s : S) (hav : s.cfg.tlsAvail = true) (hno : s.c.tls = false) (hs : HsSucceeds s) :
+    (handleStartTLS s).c = { s.c with tls := true, session := none, helo := [], didAuth := false, bdat := none,
+                                      bdatStatus := none, bytesReceived := 0, fromReceived := false, recipients := [] } ∧
+    (handleStartTLS s).w = { (s.tlsW.getD {}) with limit := s.cfg.maxLine, cur := 0, tripped := false, buf := [], err := none } ∧
+    (handleStartTLS s).tlsW = none := by
+  unfold handleStartTLS
+  have hbe : (reply s 220 ⟨2, 0, 0⟩ "Ready to start TLS").be = s.be := by unfold reply write; split <;> rfl
+  have htw : (reply s 220 ⟨2, 0, 0⟩ "Ready to start TLS").tlsW = s.tlsW := by unfold reply write; split <;> rfl
+  have hp : (popHs (reply s 220 ⟨2, 0, 0⟩ "Ready to start TLS")).1 = true ∧
+      (popHs (reply s 220 ⟨2, 0, 0⟩ "Ready to start TLS")).2.c = s.c ∧
+      (popHs (reply s 220 ⟨2, 0, 0⟩ "Ready to start TLS")).2.cfg = s.cfg ∧
+      (popHs (reply s 220 ⟨2, 0, 0⟩ "Ready to start TLS")).2.tlsW = s.tlsW := by
+    unfold popHs
+    rcases hs with h | ⟨t, h⟩ <;> simp [hbe, h, htw]
+  simp only [hno, hav, Bool.false_eq_true, if_false, Bool.not_true]
+  generalize popHs (reply s 220 ⟨2, 0, 0⟩ "Ready to start TLS") = p at hp
+  obtain ⟨ok, s1⟩ := p
+  obtain ⟨h1, h2, h3, h4⟩ := hp
+  simp only at h1 h2 h3 h4
+  subst h1
+  simp only [Bool.not_true, Bool.false_eq_true, if_false]
+  obtain ⟨uc, uw, ut⟩ := tlsUpgrade_spec (emit s1 (.tlsStart true))
+  refine ⟨?_, ?_, ?_⟩
+  · rw [uc]; simp only [emit_c, h2]
+  · rw [uw]
+    have e1 : (emit s1 (Ev.tlsStart true)).tlsW = s.tlsW := h4
+    have e2 : (emit s1 (Ev.tlsStart true)).cfg = s.cfg := h3
+    rw [e1, e2]
+  · rw [ut]
+
+/-- **C10_server_fresh.**  After a successful STARTTLS the connection state is the initial state with
+    `tls = true` — greeting name, authentication, envelope, open transfer and session are gone; only the
+    error count and the session-id counter survive — and the input read from then on is the TLS stream
+    alone: whatever plaintext was buffered or pipelined behind the command is dropped. -/
+theorem C10_server_fresh (s : S) (hav : s.cfg.tlsAvail = true) (hno : s.c.tls = false) (hs : HsSucceeds s) :
+    let s' := handleStartTLS s
+    s'.c.tls = true ∧ s'.c.helo = [] ∧ s'.c.didAuth = false ∧ s'.c.session = none ∧ s'.c.fromReceived = false ∧
+    s'.c.recipients = [] ∧ s'.c.bdat = none ∧ s'.c.bytesReceived = 0 ∧
+    s'.c.errCount = s.c.errCount ∧ s'.c.nextSess = s.c.nextSess ∧
+    s'.w.buf = [] ∧ s'.w.segs = (s.tlsW.getD {}).segs ∧ s'.w.cur = 0 ∧ s'.w.tripped = false ∧ s'.tlsW = none := by
+  obtain ⟨hc, hw, ht⟩ := startTLS_success s hav hno hs
+  simp only [hc, hw, ht]
+  simp
+
+/-- **C10_no_plaintext_in_tls.**  Non-interference: two states that differ only in the plaintext still
+    buffered or still to come behind the STARTTLS command are in the same state after the upgrade, and
+    read the same (TLS) input from then on. -/
+theorem C10_no_plaintext_in_tls (s : S) (buf : Bytes) (segs : List Bytes)
+    (hav : s.cfg.tlsAvail = true) (hno : s.c.tls = false) (hs : HsSucceeds s) :
+    (handleStartTLS { s with w := { s.w with buf := buf, segs := segs } }).w = (handleStartTLS s).w ∧
+    (handleStartTLS { s with w := { s.w with buf := buf, segs := segs } }).c = (handleStartTLS s).c := by
+  obtain ⟨hc, hw, _⟩ := startTLS_success s hav hno hs
+  obtain ⟨hc', hw', _⟩ := startTLS_success { s with w := { s.w with buf := buf, segs := segs } } hav hno hs
+  rw [hc, hw, hc', hw']
+  simp
+
 end SmtpV.Props.C10
